@@ -1913,3 +1913,225 @@ def ip_on_edge_rule(db, chk, cfg, rule="IP.on-edge"):
     return n
 
 
+
+
+# ---------------------------------------------------------------------------
+# RectClip: arithmetic on the four sides of the rectangle (C08)
+# ---------------------------------------------------------------------------
+
+def side_algebra_tables(db, chk, cfg, rule="T.side-algebra"):
+    """The clipper walks around the rectangle through its sides Left(0) -> Top(1) -> Right(2) -> Bottom(3) -> Left (clockwise).  The
+    helpers that do this arithmetic are total functions on a four-element domain and are decided exhaustively:
+    GetAdjacentLocation(l, cw) == l+1 (cw) / l-1 (ccw) mod 4;  HeadingClockwise(p, c) <=> c == p+1 mod 4;  AreOpposites(p, c) <=>
+    c == p+2 mod 4;  one step of StartLocsAreClockwise adds +1 for a clockwise step, -1 for a counter-clockwise one, 0 otherwise, and
+    the verdict is `sum > 0`."""
+    loc_enum = None
+    for en, vals in db.enums.items():
+        if set(("Left", "Top", "Right", "Bottom", "Inside")) <= set(vals):
+            loc_enum = list(vals)
+    if loc_enum is None or loc_enum[:4] != ["Left", "Top", "Right", "Bottom"]:
+        raise AnalysisBroken("enum Location {Left, Top, Right, Bottom, Inside} not found in that order")
+    n = 0
+
+    def report(f, key, msg, ok, cell):
+        chk.instance(rule, dict(cell, function=f.qual, cfg=cfg), ok=ok)
+        if not ok:
+            chk.violation(rule, f.qual, key, msg, f.where, cfg=cfg)
+
+    f = db.one("GetAdjacentLocation")
+    a, b = [p["name"] for p in f.params]
+    for l in range(4):
+        for cw in (False, True):
+            try:
+                got = Interp(db, {a: l, b: cw}).run_function(f)
+            except Unsupported as e:
+                raise AnalysisBroken("cannot interpret GetAdjacentLocation: %s" % e)
+            want = (l + (1 if cw else 3)) % 4
+            n += 1
+            report(f, "%d/%s" % (l, cw), "GetAdjacentLocation(%s, clockwise=%s) returns %s, the %s neighbour is %s" %
+                   (loc_enum[l], cw, loc_enum[got] if isinstance(got, int) and 0 <= got < 5 else got, "clockwise" if cw else "counter-clockwise", loc_enum[want]),
+                   got == want, {"loc": loc_enum[l], "clockwise": cw, "result": got})
+    for q, pred, what in (("HeadingClockwise", lambda p, c: c == (p + 1) % 4, "the clockwise neighbour of"),
+                          ("AreOpposites", lambda p, c: c == (p + 2) % 4, "opposite to")):
+        f = db.one(q)
+        a, b = [p["name"] for p in f.params]
+        for p0 in range(4):
+            for c0 in range(4):
+                try:
+                    got = bool(Interp(db, {a: p0, b: c0}).run_function(f))
+                except Unsupported as e:
+                    raise AnalysisBroken("cannot interpret %s: %s" % (q, e))
+                n += 1
+                report(f, "%d/%d" % (p0, c0), "%s(%s, %s) returns %s but %s is %s%s %s" % (q, loc_enum[p0], loc_enum[c0], got, loc_enum[c0],
+                       "" if pred(p0, c0) else "not ", what, loc_enum[p0]), got == pred(p0, c0), {"prev": loc_enum[p0], "curr": loc_enum[c0], "result": got})
+    # StartLocsAreClockwise: one step of the accumulation, and the verdict
+    f = db.one("StartLocsAreClockwise")
+    vec = f.params[0]["name"]
+    loops = [x for x in kids(f.body) if x.get("kind") in ("ForStmt", "CXXForRangeStmt", "WhileStmt")]
+    if len(loops) != 1:
+        raise AnalysisBroken("StartLocsAreClockwise: accumulation loop not found")
+    body = kids(loops[0])[-1]
+    acc = None
+    for s0 in kids(f.body):
+        if s0.get("kind") == "ReturnStmt":
+            for y in walk(s0):
+                if y.get("kind") == "DeclRefExpr" and y.get("referencedDecl", {}).get("kind") == "VarDecl":
+                    acc = y["referencedDecl"]["name"]
+    if acc is None:
+        raise AnalysisBroken("StartLocsAreClockwise: accumulator not recognised")
+    for p0 in range(4):
+        for c0 in range(4):
+            def hook(name, argv, nd, p0=p0, c0=c0):
+                if name == "operator[]" and canon(db.call_args(nd)[0]) == vec:
+                    idx = canon(db.call_args(nd)[1])
+                    return p0 if "- 1" in idx else c0
+                return NotImplemented
+            it = Interp(db, {acc: 0, "i": 1}, call_hook=hook)
+            try:
+                it.exec(body)
+            except Unsupported as e:
+                raise AnalysisBroken("cannot interpret the loop body of StartLocsAreClockwise: %s" % e)
+            got = it.env.get(acc)
+            d = (c0 - p0) % 4
+            want = 1 if d == 1 else (-1 if d == 3 else 0)
+            n += 1
+            report(f, "step %d->%d" % (p0, c0), "a step from %s to %s changes the clockwise count by %s; the definition gives %+d (clockwise is "
+                   "Left->Top->Right->Bottom->Left)" % (loc_enum[p0], loc_enum[c0], got, want), got == want, {"step": [loc_enum[p0], loc_enum[c0]], "count_change": got})
+    rets = [s0 for s0 in kids(f.body) if s0.get("kind") == "ReturnStmt"]
+    for v in (-2, -1, 0, 1, 2):
+        try:
+            got = bool(Interp(db, {acc: v}).ev(kids(rets[-1])[0]))
+        except Unsupported as e:
+            raise AnalysisBroken("cannot interpret the verdict of StartLocsAreClockwise: %s" % e)
+        n += 1
+        report(f, "verdict %d" % v, "StartLocsAreClockwise answers %s for a net count of %d" % (got, v), got == (v > 0), {"net_count": v, "clockwise": got})
+    return n
+
+
+# ---------------------------------------------------------------------------
+# GetBounds: every vertex is considered for the minimum and for the maximum (C11 range check, C08/C09 shortcuts, C20)
+# ---------------------------------------------------------------------------
+
+def bounds_update_table(db, chk, cfg, rule="BOUNDS.minmax"):
+    """Every GetBounds overload accumulates min and max of x and of y over all vertices, starting from the sentinels (min = largest,
+    max = lowest value).  The per-vertex update (the innermost loop body) is interpreted on the four situations a coordinate can be
+    in - below the current minimum, between, above the current maximum, and *both at once* in the sentinel state - and must leave
+    min' = min(min, v) and max' = max(max, v).  The bounds feed the range check of ScalePaths (C11) and the bounding-box shortcuts of
+    RectClip / RectClipLines."""
+    n = 0
+    nfun = 0
+    SENT_MIN, SENT_MAX = 10 ** 30, -10 ** 30
+    for f in db.find("GetBounds"):
+        if f.body is None or len(f.params) != 1:
+            continue
+        loops = [x for x in walk(f.body) if x.get("kind") in ("CXXForRangeStmt", "ForStmt")]
+        if not loops:
+            continue
+        inner = loops[-1]
+        body = kids(inner)[-1]
+        lv = None
+        if inner.get("kind") == "CXXForRangeStmt":
+            ds = [d for d in walk(kids(inner)[-2]) if d.get("kind") == "VarDecl"]
+            lv = ds[0].get("name") if ds else None
+        if lv is None:
+            raise AnalysisBroken("GetBounds %s: loop variable not recognised" % f.sig[:60])
+        # the four accumulators, by the comparisons the update makes:  v.c < A  -> A is the minimum of c;  v.c > A  -> the maximum
+        amin = {"x": [], "y": []}
+        amax = {"x": [], "y": []}
+        for y in walk(body):
+            if y.get("kind") == "BinaryOperator" and y.get("opcode") in ("<", ">", "<=", ">="):
+                a0, a1 = canon(kids(y)[0]), canon(kids(y)[1])
+                op = y.get("opcode")[0]
+                for c in "xy":
+                    vc = "%s.%s" % (lv, c)
+                    if a0 == vc and strip(kids(y)[1]).get("kind") == "DeclRefExpr":
+                        (amin if op == "<" else amax)[c].append(a1)
+                    elif a1 == vc and strip(kids(y)[0]).get("kind") == "DeclRefExpr":
+                        (amin if op == ">" else amax)[c].append(a0)
+        for c in "xy":
+            amin[c] = sorted(set(amin[c]))
+            amax[c] = sorted(set(amax[c]))
+        if not all(len(amin[c]) == 1 and len(amax[c]) == 1 for c in "xy"):
+            raise AnalysisBroken("GetBounds %s: the four min / max accumulators were not recognised (%s, %s)" % (f.sig[:60], amin, amax))
+        nfun += 1
+        for c in "xy":
+            for lo, hi, v, what in ((10, 20, 5, "below the current minimum"), (10, 20, 15, "between"), (10, 20, 25, "above the current maximum"),
+                                    (SENT_MIN, SENT_MAX, 7, "first vertex (sentinel state)")):
+                env = {amin["x"][0]: 10, amax["x"][0]: 20, amin["y"][0]: 10, amax["y"][0]: 20, lv + ".x": 15, lv + ".y": 15, lv + "->x": 15, lv + "->y": 15}
+                env[amin[c][0]], env[amax[c][0]] = lo, hi
+                env[lv + "." + c] = v
+                it = Interp(db, env)
+                try:
+                    it.exec(body)
+                except Unsupported as e:
+                    raise AnalysisBroken("cannot interpret the vertex update of GetBounds %s: %s" % (f.sig[:60], e))
+                gmin, gmax = it.env[amin[c][0]], it.env[amax[c][0]]
+                ok = gmin == min(lo, v) and gmax == max(hi, v)
+                n += 1
+                chk.instance(rule, {"function": f.qual, "sig": f.sig[:60], "coordinate": c, "vertex": what, "min_after": gmin if abs(gmin) < 10 ** 29 else "sentinel",
+                                    "max_after": gmax if abs(gmax) < 10 ** 29 else "sentinel", "cfg": cfg} if n % 3 == 1 else None, ok=ok)
+                if not ok:
+                    chk.violation(rule, f.qual.split("<")[0], "%s|%s|%s" % (f.sig[:40], c, what.split(" ")[0]),
+                                  "%s: a vertex whose %s is %s leaves %s=%s, %s=%s; both the minimum and the maximum must take every vertex into account "
+                                  "(min' = min(min, v), max' = max(max, v))" % (f.sig[:70], c, what, amin[c][0], gmin if abs(gmin) < 10 ** 29 else "<sentinel>",
+                                                                              amax[c][0], gmax if abs(gmax) < 10 ** 29 else "<sentinel>"), where(inner), cfg=cfg)
+    if nfun < 4:
+        raise AnalysisBroken("BOUNDS.minmax: only %d GetBounds overloads with a vertex loop found" % nfun)
+    return n
+
+
+# ---------------------------------------------------------------------------
+# AXIS.mirror: twin computations for x and y use mirrored inputs (C18, C13 transposition)
+# ---------------------------------------------------------------------------
+
+def _axis_swapname(n):
+    t = n.replace("x", "\\0").replace("y", "x").replace("\\0", "y")
+    return t
+
+
+def axis_mirror_rule(db, chk, cfg, rule="AXIS.mirror"):
+    """Where a function declares twin locals for the two axes (names that differ only by x <-> y: bb0minx / bb0miny, originx / originy,
+    hitx / hity ...), the coordinates and twin locals their initialisers read must be mirror images of each other (multisets of `.x` /
+    `.y` member accesses and of axis-named locals).  A twin that reads the other axis breaks the symmetry of the code under
+    transposition of the input - the classic copy-and-edit slip.  Operand order, min/max spelling and signs do not matter."""
+    import re as _r
+    n = 0
+    for f in db.funcs:
+        if f.body is None or f.is_pattern or "Clipper2Lib" not in (f.file or ""):
+            continue
+        decls = {}
+        for d in walk(f.body):
+            if d.get("kind") == "VarDecl" and d.get("name"):
+                init = [c for c in kids(d) if isinstance(c, dict) and c.get("kind")]
+                if init:
+                    decls.setdefault(d["name"], (d, init[-1]))
+
+        def axes(e):
+            out = []
+            for y in walk(e):
+                k = y.get("kind")
+                if k == "MemberExpr" and y.get("name") in ("x", "y"):
+                    out.append(y.get("name"))
+                elif k == "DeclRefExpr":
+                    nm = y.get("referencedDecl", {}).get("name") or ""
+                    if nm in decls and _axis_swapname(nm) in decls and _axis_swapname(nm) != nm:
+                        out.append("v:" + nm)
+            return sorted(out)
+
+        def mirror(a):
+            return sorted(("y" if t == "x" else "x") if t in ("x", "y") else "v:" + _axis_swapname(t[2:]) for t in a)
+        for nm, (d, init) in sorted(decls.items()):
+            sn = _axis_swapname(nm)
+            if sn == nm or sn not in decls or nm > sn or "x" not in nm:
+                continue
+            ax, ay = axes(init), axes(decls[sn][1])
+            if not ax and not ay:
+                continue
+            n += 1
+            ok = mirror(ax) == ay
+            chk.instance(rule, {"function": f.qual, "twins": [nm, sn], "reads": [ax, ay], "cfg": cfg}, ok=ok)
+            if not ok:
+                chk.violation(rule, f.qual.split("<")[0], "%s/%s" % (nm, sn), "the twin locals `%s` and `%s` do not read mirrored inputs: `%s` reads %s, `%s` reads %s "
+                              "(expected %s) - one of the two was probably copied from the other and not fully edited" %
+                              (nm, sn, nm, ax, sn, ay, mirror(ax)), where(decls[sn][0]), cfg=cfg)
+    return n
